@@ -4,7 +4,7 @@
 use core::hash::Hash;
 use std::{
     borrow::Borrow,
-    collections::BTreeMap,
+    collections::{BTreeMap, HashMap},
     fmt::{Debug, Display, Formatter, Result},
     marker::PhantomData,
     rc::Rc,
@@ -49,24 +49,37 @@ pub struct IdAliasStore<T> {
     /// Map from the DefIds we've encountered to a u32 alias id unique to all ids
     /// the same name.
     aliases: IndexMap<T, u32>,
-    /// Map from each name to the next unused u32 alias id.
-    next_unused_for_name: BTreeMap<String, u32>,
+    /// Map from each name, within its scope, to the next unused u32 alias id.
+    ///
+    /// Top-level items share the scope `None`. An associated type is only ever
+    /// named next to its trait (`<T as Trait>::Name`, `Trait<Name = T>`), so it
+    /// lives in the scope of that trait and does not clash with the associated
+    /// types of other traits.
+    next_unused_for_name: HashMap<(Option<T>, String), u32>,
 }
 
 impl<T> Default for IdAliasStore<T> {
     fn default() -> Self {
         IdAliasStore {
             aliases: IndexMap::default(),
-            next_unused_for_name: BTreeMap::default(),
+            next_unused_for_name: HashMap::default(),
         }
     }
 }
 
 impl<T: Copy + Eq + Hash> IdAliasStore<T> {
     fn alias_for_id_name(&mut self, id: T, name: String) -> String {
+        self.alias_for_id_name_in_scope(id, None, name)
+    }
+
+    /// Like `alias_for_id_name`, but `name` only has to be unique among the
+    /// names given out for the same `scope`.
+    fn alias_for_id_name_in_scope(&mut self, id: T, scope: Option<T>, name: String) -> String {
         let next_unused_for_name = &mut self.next_unused_for_name;
         let alias = *self.aliases.entry(id).or_insert_with(|| {
-            let next_unused: &mut u32 = next_unused_for_name.entry(name.clone()).or_default();
+            let next_unused: &mut u32 = next_unused_for_name
+                .entry((scope, name.clone()))
+                .or_default();
             let id = *next_unused;
             *next_unused += 1;
             id
@@ -236,6 +249,25 @@ impl<'a, I: Interner> InternalWriterState<'a, I> {
             .unwrap()
             .id_aliases
             .alias_for_id_name(UnifiedId::DefId(id), name)
+    }
+
+    /// The name of an associated type only has to be unique within its trait.
+    pub(super) fn alias_for_assoc_type_id_name(
+        &self,
+        id: I::DefId,
+        trait_id: I::DefId,
+        name: String,
+    ) -> impl Display {
+        self.persistent_state
+            .id_aliases
+            .lock()
+            .unwrap()
+            .id_aliases
+            .alias_for_id_name_in_scope(
+                UnifiedId::DefId(id),
+                Some(UnifiedId::DefId(trait_id)),
+                name,
+            )
     }
 
     /// Adds a level of debrujin index, and possibly a "Self" parameter.
